@@ -40,41 +40,50 @@ variable {α : Type} [Add α] [Mul α] [Sub α] [Div α] [OfNat α 0] [OfNat α 
 theorem fd_restores_state (ops : Ops α) (B : Blk α) (S : Nat → Prop) (hB : BlkOK B S) (L : Layout)
     (cfg : Cfg α) (inps : List InSig) (outps : List (OutSig α))
     (hn : ∀ i ∈ inps, i.sig.ents.Nodup) (hS : ∀ i ∈ inps, ∀ e ∈ i.sig.ents, S e)
+    (hv : ∀ i ∈ inps, ∀ j ∈ i.visit, j < i.sig.ents.length)
     (σ : Store α) (res : Res α) (h : fdCore ops B L cfg inps outps σ = .ok res) :
     ∀ e, S e → res.store.st e = σ.st e := by
   obtain ⟨σ2, σ3, recs, h1, h2, h3⟩ := fdCore_stages ops B L cfg inps outps σ res h
-  obtain ⟨a1, _⟩ := analytical_spec ops B S hB L inps (fun _ => True) (fun _ _ _ _ _ => trivial)
+  obtain ⟨a1, _⟩ := analytical_spec ops B S hB L _ inps (fun _ => True) (fun _ _ _ _ _ => trivial)
     (fun _ => trivial) outps σ2 σ3 recs h2
-  obtain ⟨b1, _⟩ := inputLoop_spec ops B S hB cfg outps recs σ3.st 0 inps hn hS σ3 res.store res.calls
+  obtain ⟨b1, _⟩ := inputLoop_spec ops B S hB cfg outps recs σ3.st 0 inps hn hS hv σ3 res.store res.calls
     (fun _ _ => rfl) h3
   intro e he
-  rw [b1 e he, a1, hB.resp_st _ _ h1 e he, hB.reset_st]
+  rw [b1 e he, a1, hB.resp_st _ _ h1 e he, resetAll_st B S hB]
 
 /-- … for a C02 program: every entry that no module of the (selected) network writes. -/
 theorem fd_restores_state_prog (ops : Ops α) (L : Layout) (g gs : Prog α) (cfg : Cfg α)
     (inps : List InSig) (outps : List (OutSig α)) (hn : ∀ i ∈ inps, i.sig.ents.Nodup)
     (hS : ∀ i ∈ inps, ∀ e ∈ i.sig.ents, e ∉ progOutEnts g)
+    (hv : ∀ i ∈ inps, ∀ j ∈ i.visit, j < i.sig.ents.length)
     (σ : Store α) (res : Res α) (h : fdCore ops (progBlk L g gs) L cfg inps outps σ = .ok res) :
     ∀ e, e ∉ progOutEnts g → res.store.st e = σ.st e :=
-  fd_restores_state ops _ _ (progBlk_ok L g gs) L cfg inps outps hn hS σ res h
+  fd_restores_state ops _ _ (progBlk_ok L g gs) L cfg inps outps hn hS hv σ res h
 
 /-- No sensitivity is left set: after the call every signal of the examined network (inputs and
-    outputs of every module, nested networks included) has sensitivity `None` or all zeros (the
+    outputs of every module, nested networks included) AND every input / output of interest —
+    whether or not it belongs to the executed modules — has sensitivity `None` or all zeros (the
     latter only for `keep_alloc` signals and sliced containers). -/
 theorem fd_leaves_no_sensitivity (ops : Ops α) (L : Layout) (g gs : Prog α) (cfg : Cfg α)
     (inps : List InSig) (outps : List (OutSig α)) (hn : ∀ i ∈ inps, i.sig.ents.Nodup)
     (hS : ∀ i ∈ inps, ∀ e ∈ i.sig.ents, e ∉ progOutEnts g)
+    (hv : ∀ i ∈ inps, ∀ j ∈ i.visit, j < i.sig.ents.length)
     (σ : Store α) (res : Res α) (h : fdCore ops (progBlk L g gs) L cfg inps outps σ = .ok res) :
-    ∀ s ∈ progSigs g, SigClear s res.store := by
+    ∀ s ∈ progSigs g ++ (inps.map (·.sig) ++ outps.map (·.sig)), SigClear s res.store := by
   obtain ⟨σ2, σ3, recs, h1, h2, h3⟩ := fdCore_stages ops _ L cfg inps outps σ res h
   have hB := progBlk_ok L g gs
-  let P : Store α → Prop := fun τ => ∀ s ∈ progSigs g, SigClear s τ
+  let extra := inps.map (·.sig) ++ outps.map (·.sig)
+  let P : Store α → Prop := fun τ => ∀ s ∈ progSigs g ++ extra, SigClear s τ
   have hP : ∀ τ τ' : Store α, τ'.se = τ.se → τ'.hasSe = τ.hasSe → P τ → P τ' := by
     intro τ τ' e1 e2 hp s hs hb e he
     rw [e1]; exact hp s hs (by rw [← e2]; exact hb) e he
-  have hreset : ∀ τ, P ((progBlk L g gs).reset τ) := fun τ => Prog.reset_clear L g τ
-  obtain ⟨_, a2, _⟩ := analytical_spec ops _ _ hB L inps P hP hreset outps σ2 σ3 recs h2
-  obtain ⟨_, b2, b3, _⟩ := inputLoop_spec ops _ _ hB cfg outps recs σ3.st 0 inps hn hS σ3 res.store
+  have hreset : ∀ τ, P (resetAll (progBlk L g gs) L extra τ) := by
+    intro τ s hs
+    rcases List.mem_append.mp hs with hs | hs
+    · exact foldl_resetSig_clear_keep L extra s _ (Prog.reset_clear L g τ s hs)
+    · exact foldl_resetSig_clear L extra _ s hs
+  obtain ⟨_, a2, _⟩ := analytical_spec ops _ _ hB L extra inps P hP hreset outps σ2 σ3 recs h2
+  obtain ⟨_, b2, b3, _⟩ := inputLoop_spec ops _ _ hB cfg outps recs σ3.st 0 inps hn hS hv σ3 res.store
     res.calls (fun _ _ => rfl) h3
   obtain ⟨c1, c2⟩ := hB.resp_se _ _ h1
   exact hP σ3 res.store b2 b3 (a2 (hP _ σ2 c1 c2 (hreset σ)))
@@ -89,21 +98,23 @@ theorem fd_leaves_no_sensitivity (ops : Ops α) (L : Layout) (g gs : Prog α) (c
 theorem fd_calls_provenance (ops : Ops α) (B : Blk α) (S : Nat → Prop) (hB : BlkOK B S) (L : Layout)
     (cfg : Cfg α) (inps : List InSig) (outps : List (OutSig α))
     (hn : ∀ i ∈ inps, i.sig.ents.Nodup) (hS : ∀ i ∈ inps, ∀ e ∈ i.sig.ents, S e)
+    (hv : ∀ i ∈ inps, ∀ j ∈ i.visit, j < i.sig.ents.length)
     (σ : Store α) (res : Res α) (h : fdCore ops B L cfg inps outps σ = .ok res) :
-    ∃ σ2 recs, B.response (B.reset σ) = .ok σ2 ∧ recs.length = outps.length ∧
+    ∃ σ2 recs, B.response (resetAll B L (inps.map (·.sig) ++ outps.map (·.sig)) σ) = .ok σ2 ∧
+      recs.length = outps.length ∧
       (∀ (k : Nat) o r, outps[k]? = some o → recs[k]? = some (some r) → RecOK ops B L inps σ2.st o r) ∧
-      ∀ c ∈ res.calls, ∃ i x, inps[c.iin]? = some i ∧
+      ∀ c ∈ res.calls, ∃ i x, inps[c.iin]? = some i ∧ c.j ∈ i.visit ∧
         (∀ m, m < i.sig.ents.length → x m = σ2.st (i.sig.ents.getD m 0)) ∧
         CallOK ops B cfg outps recs S σ2.st i c.iin x c := by
   obtain ⟨σ2, σ3, recs, h1, h2, h3⟩ := fdCore_stages ops B L cfg inps outps σ res h
-  obtain ⟨a1, _, a3, a4⟩ := analytical_spec ops B S hB L inps (fun _ => True) (fun _ _ _ _ _ => trivial)
+  obtain ⟨a1, _, a3, a4⟩ := analytical_spec ops B S hB L _ inps (fun _ => True) (fun _ _ _ _ _ => trivial)
     (fun _ => trivial) outps σ2 σ3 recs h2
-  obtain ⟨_, _, _, b4⟩ := inputLoop_spec ops B S hB cfg outps recs σ3.st 0 inps hn hS σ3 res.store
+  obtain ⟨_, _, _, b4⟩ := inputLoop_spec ops B S hB cfg outps recs σ3.st 0 inps hn hS hv σ3 res.store
     res.calls (fun _ _ => rfl) h3
   refine ⟨σ2, recs, h1, a3, a4, fun c hc => ?_⟩
-  obtain ⟨k, i, x, e1, e2, e3, e4⟩ := b4 c hc
+  obtain ⟨k, i, x, e1, e2, e2', e3, e4⟩ := b4 c hc
   rw [a1] at e3 e4
-  exact ⟨i, x, by rw [e1, Nat.zero_add]; exact e2, e3, e4⟩
+  exact ⟨i, x, by rw [e1, Nat.zero_add]; exact e2, e2', e3, e4⟩
 
 /-- The analytical value handed to `test_fn` is the real (imaginary pass: imaginary) part of entry
     `j` of the sensitivity that `blk.sensitivity()` back-propagated into the input after ONLY the
@@ -112,8 +123,9 @@ theorem fd_calls_provenance (ops : Ops α) (B : Blk α) (S : Nat → Prop) (hB :
 theorem fd_analytical_is_backprop (ops : Ops α) (B : Blk α) (S : Nat → Prop) (hB : BlkOK B S)
     (L : Layout) (cfg : Cfg α) (inps : List InSig) (outps : List (OutSig α))
     (hn : ∀ i ∈ inps, i.sig.ents.Nodup) (hS : ∀ i ∈ inps, ∀ e ∈ i.sig.ents, S e)
+    (hv : ∀ i ∈ inps, ∀ j ∈ i.visit, j < i.sig.ents.length)
     (σ : Store α) (res : Res α) (h : fdCore ops B L cfg inps outps σ = .ok res) :
-    ∃ σ2, B.response (B.reset σ) = .ok σ2 ∧
+    ∃ σ2, B.response (resetAll B L (inps.map (·.sig) ++ outps.map (·.sig)) σ) = .ok σ2 ∧
       ∀ c ∈ res.calls, ∃ i o σpre σa σb, inps[c.iin]? = some i ∧ outps[c.iout]? = some o ∧
         σpre.st = σ2.st ∧ seed L o.sig (some (seedVals ops o)) σpre = .ok σa ∧
         B.sensitivity σa = .ok σb ∧
@@ -121,9 +133,9 @@ theorem fd_analytical_is_backprop (ops : Ops α) (B : Blk α) (S : Nat → Prop)
                   (if c.imag then ops.im (σb.se (i.sig.ents.getD c.j 0)) else ops.re (σb.se (i.sig.ents.getD c.j 0)))
                 else 0) := by
   obtain ⟨σ2, recs, h1, _, hrec, hcalls⟩ :=
-    fd_calls_provenance ops B S hB L cfg inps outps hn hS σ res h
+    fd_calls_provenance ops B S hB L cfg inps outps hn hS hv σ res h
   refine ⟨σ2, h1, fun c hc => ?_⟩
-  obtain ⟨i, x, hi, _, _, _, _, σ', σp, σr, cs', _, _, _, hout, hmem⟩ := hcalls c hc
+  obtain ⟨i, x, hi, _, _, _, _, _, σ', σp, σr, cs', _, _, _, hout, hmem⟩ := hcalls c hc
   obtain ⟨_, _, _, _, _, m, o, r, e1, e2, e3, _, e5, _⟩ := outCalls_spec ops _ _ _ _ _ _ _ _ _ _ _ hout c hmem
   rw [Nat.zero_add] at e1
   obtain ⟨σpre, σa, σb, p1, p2, p3, _, p5, _⟩ := hrec m o r e2 e3
@@ -141,22 +153,25 @@ theorem fd_analytical_is_backprop (ops : Ops α) (B : Blk α) (S : Nat → Prop)
     rfl
 
 /-- All entries are visited, or exactly the non-zero ones: a call for input `iin`, entry `j` exists
-    only if the entry is not skipped, and the imaginary pass only for complex inputs (`CallOK`);
-    conversely (`fd_entries_covered_conv`, below) … -/
+    only for an entry the iterator visits (all flat entries; the stored entries of a sparse matrix)
+    that is not skipped by the zero-structure rule, `x0` is its unperturbed value, and the imaginary
+    pass occurs only for complex inputs.  (The converse — one call per visited, non-skipped entry,
+    direction and output with a state — is checked on every run by the oracle, not proved.) -/
 theorem fd_entries_covered (ops : Ops α) (B : Blk α) (S : Nat → Prop) (hB : BlkOK B S) (L : Layout)
     (cfg : Cfg α) (inps : List InSig) (outps : List (OutSig α))
     (hn : ∀ i ∈ inps, i.sig.ents.Nodup) (hS : ∀ i ∈ inps, ∀ e ∈ i.sig.ents, S e)
+    (hv : ∀ i ∈ inps, ∀ j ∈ i.visit, j < i.sig.ents.length)
     (σ : Store α) (res : Res α) (h : fdCore ops B L cfg inps outps σ = .ok res) :
-    ∃ σ2, B.response (B.reset σ) = .ok σ2 ∧
-      ∀ c ∈ res.calls, ∃ i, inps[c.iin]? = some i ∧ c.j < i.sig.ents.length ∧
+    ∃ σ2, B.response (resetAll B L (inps.map (·.sig) ++ outps.map (·.sig)) σ) = .ok σ2 ∧
+      ∀ c ∈ res.calls, ∃ i, inps[c.iin]? = some i ∧ c.j ∈ i.visit ∧ c.j < i.sig.ents.length ∧
         c.x0 = σ2.st (i.sig.ents.getD c.j 0) ∧ c.dx = cfg.dx ∧
         skipEntry cfg i c.x0 = false ∧ (c.imag = true → i.cx = true) := by
   obtain ⟨σ2, recs, h1, _, _, hcalls⟩ :=
-    fd_calls_provenance ops B S hB L cfg inps outps hn hS σ res h
+    fd_calls_provenance ops B S hB L cfg inps outps hn hS hv σ res h
   refine ⟨σ2, h1, fun c hc => ?_⟩
-  obtain ⟨i, x, hi, hx, hj, hsk, hcx, σ', σp, σr, cs', _, _, _, hout, hmem⟩ := hcalls c hc
+  obtain ⟨i, x, hi, hvis, hx, hj, hsk, hcx, σ', σp, σr, cs', _, _, _, hout, hmem⟩ := hcalls c hc
   obtain ⟨_, _, _, e4, e5, _⟩ := outCalls_spec ops _ _ _ _ _ _ _ _ _ _ _ hout c hmem
-  exact ⟨i, hi, hj, by rw [e4, hx c.j hj], e5, by rw [e4]; exact hsk, hcx⟩
+  exact ⟨i, hi, hvis, hj, by rw [e4, hx c.j hj], e5, by rw [e4]; exact hsk, hcx⟩
 
 /-! ## sub-network selection -/
 
@@ -187,7 +202,7 @@ theorem fd_subnetwork_sound (g : Prog α) (f l : Nat) (σ τ : Store α) (h : g.
    inputs, i.e. `(takeI f g).response` commutes with changing entries of base signals that no item before
    `i_first` reads (needs a read-frame lemma for `Prim.response`); and that an input which is an INTERNAL
    signal of a nested network is invisible to the selection — on the real code this makes the reported pair
-   (0, 0) although the derivative is not 0 (defect candidate `corpus/defects/c19_nested_internal_input`). -/
+   (0, 0) although the derivative is not 0 (open finding fd-fromsig-inside-nested-network, witness `corpus/defects/pending/c19_nested_internal_input.py`). -/
 
 end generic
 
@@ -283,9 +298,9 @@ end Demo
 open Demo in
 /-- the hypotheses of the structural theorems hold for a concrete module, the procedure succeeds and
     reports `(x0, dx, an, fd) = (3, 1/4, 6, 6 + 1/4)`: analytical `2x`, numerical `2x + h`. -/
-example : (∀ i ∈ [(⟨x, false, false⟩ : InSig)], i.sig.ents.Nodup) ∧
-    (∀ i ∈ [(⟨x, false, false⟩ : InSig)], ∀ e ∈ i.sig.ents, e ∉ progOutEnts g) ∧
-    ∃ res, fdCore ops (progBlk L g g) L cfg [⟨x, false, false⟩] [⟨y, false, .ones⟩] σ0 = .ok res ∧
+example : (∀ i ∈ [(⟨x, false, false, [0], false⟩ : InSig)], i.sig.ents.Nodup) ∧
+    (∀ i ∈ [(⟨x, false, false, [0], false⟩ : InSig)], ∀ e ∈ i.sig.ents, e ∉ progOutEnts g) ∧
+    ∃ res, fdCore ops (progBlk L g g) L cfg [⟨x, false, false, [0], false⟩] [⟨y, false, .ones⟩] σ0 = .ok res ∧
       res.calls.map (fun c => (c.x0, c.dx, c.an, c.fd)) = [(3, 1 / 4, 6, 25 / 4)] ∧
       res.store.st 0 = 3 ∧ res.store.hasSe 0 = false ∧ res.store.hasSe 1 = false := by
   refine ⟨by decide, by decide, _, rfl, ?_, ?_, ?_, ?_⟩ <;> decide +kernel
